@@ -189,6 +189,12 @@ def pick_op(rng, entry, ctx):
             batch = [{rng.choice(ids): rng.choice([-2, -1, 1, 2]) for _ in range(rng.randint(1, 2))} for _ in range(rng.randint(2, 3))]
             prev.append(batch)
         args = [batch, rng.random() < 0.4]
+    elif op == "select_scribbling_solver":
+        ids = [i for i in graph if i != top]
+        if len(ids) > 14:
+            return None
+        batch = [({} if rng.random() < 0.5 else {rng.choice(ids): rng.choice([-2, -1, 1, 2])}) for _ in range(rng.randint(1, 2))]
+        args = [batch, rng.random() < 0.4]
     elif op == "select_failing_solver":
         args = [rng.choice(["raise", "none"])]
     elif op == "add":
